@@ -527,3 +527,21 @@ Definition infer_ranks (tp : tprog) : list nat := map (rank_at (length tp) tp) (
 (* the validator that is run: equations + progress *)
 Definition validate_full (sp : sprog) (tp : tprog) (hs : hints) : bool :=
   validate sp tp hs && check_progress tp (infer_ranks tp).
+
+(* ------------------------------------------------------------------ register lists (ld1/st1/tbl {v, v+1, ..}) *)
+(* The machine instruction encodes only the FIRST register of a list; the CPU accesses the registers that follow it,
+   modulo 32. A dumped list of locations is what the CPU uses iff it equals the expansion of its first element. *)
+Fixpoint expand_list (g id : N) (n : nat) : list loc :=
+  match n with
+  | O => []
+  | S k => LReg g id :: expand_list g (N.modulo (id + 1) 32) k
+  end.
+
+Definition consec_ok (ls : list loc) : bool :=
+  match ls with
+  | [] => true
+  | LReg g id :: _ => list_eqb loc_eqb ls (expand_list g id (length ls))
+  | LSlot _ :: _ => false
+  end.
+
+Definition lists_ok (groups : list (list loc)) : bool := forallb consec_ok groups.
